@@ -8,8 +8,10 @@
 #include <errno.h>
 #include <fcntl.h>
 #include <malloc.h>
+#include <grp.h>
 #include <pthread.h>
 #include <pty.h>
+#include <pwd.h>
 #include <signal.h>
 #include <stdarg.h>
 #include <stdint.h>
@@ -115,12 +117,31 @@ static void *thr_call_main(void *p) {
     return NULL;
 }
 
+/* "libcbuf 1": the strings of the following calls live in libc's own static result buffers (getpwuid / getgrgid / getpwnam:
+ * what a launcher does with execv(pw->pw_shell, {pw->pw_name, ...})).  The library shares libc with the caller: whatever it looks up
+ * while logging must not go through the non-reentrant interfaces, or the caller's arguments change under its feet. */
+static int LIBCBUF = 0;
+static char *into_static(char *area, size_t room, char *s) {
+    size_t n = strlen(s) + 1;
+    if (!area || n > room) return s;
+    memcpy(area, s, n);
+    return area;
+}
+static void place_in_libc_buffers(vbytes *path, vlist *argv, vlist *envp) {
+    struct passwd *pw = getpwuid(1); struct group *gr = getgrgid(1); struct passwd *pn = getpwnam("daemon");
+    /* the record's strings start at pw_name / gr_name in glibc's static buffer (1024 bytes at least) */
+    if (pw && !path->isnull) path->p = into_static(pw->pw_name, 200, path->p);
+    if (gr && !argv->isnull && argv->v[0]) argv->v[0] = into_static(gr->gr_name, 200, argv->v[0]);
+    if (pn && pn != pw && !envp->isnull && envp->v[0]) envp->v[0] = into_static(pn->pw_name, 200, envp->v[0]);
+}
+
 static int do_call(int nf, char **f) {
     /* call api path argv envp mode ret errno */
     if (nf < 8) return -1;
     int is_execv = !strcmp(f[1], "execv");
     vbytes path = parse_bytes(f[2]); vlist argv = parse_list(f[3]); vlist envp = parse_list(f[4]);
     int mode = atoi(f[5]), ret = atoi(f[6]), err = atoi(f[7]);
+    if (LIBCBUF) place_in_libc_buffers(&path, &argv, &envp);
     cur_idx++;
     verif_expect.path = path.isnull ? NULL : path.p; verif_expect.argv = argv.isnull ? NULL : argv.v; verif_expect.envp = envp.isnull ? NULL : envp.v;
     verif_expect.is_execv = is_execv; verif_expect.mode = mode; verif_expect.ret = ret; verif_expect.err = err; verif_expect.call_index = cur_idx;
@@ -207,6 +228,7 @@ static void handle_line(int nf, char **f) {
         if (!strcmp(f[1], "closed")) close(0);
         else if (!strcmp(f[1], "null")) { int fd = open("/dev/null", O_RDONLY); dup2(fd, 0); close(fd); }
     } else if (!strcmp(f[0], "stack") && nf >= 2) { STACK_KIB = (size_t) atol(f[1]);
+    } else if (!strcmp(f[0], "libcbuf") && nf >= 2) { LIBCBUF = atoi(f[1]);
     } else if (!strcmp(f[0], "call")) { do_call(nf, f);
     } else if (!strcmp(f[0], "state")) { verif_sample_state(nf >= 2 ? f[1] : "mark");
     }
